@@ -68,9 +68,9 @@ class MulLinearOperator(LinearOperator):
             n = self.size(-1)
             m = rhs.size(-1)
             # Now implement the formula (A . B) v = diag(A D_v B)
-            left_res = left_res.view(*output_batch_shape, n, rank * m)
+            left_res = left_res.reshape(*output_batch_shape, n, rank * m)
             left_res = self.right_linear_op._matmul(left_res)
-            left_res = left_res.view(*output_batch_shape, n, rank, m)
+            left_res = left_res.reshape(*output_batch_shape, n, rank, m)
             res = left_res.mul_(left_root.unsqueeze(-1)).sum(-2)
         # This is the case where we're not doing a root decomposition, because the matrix is too small
         else:  # Dead?
